@@ -868,3 +868,150 @@ impl<'a> Driver<'a> {
         }
     }
 }
+
+// ---------------------------------------------------------------------------------
+// The repository's own fixtures as a trace: every vector becomes a sequence of API
+// events (the fixture's artefacts are imported with the provenance the fixture states),
+// executed against the library and validated by TLC with every invariant on.
+// ---------------------------------------------------------------------------------
+pub fn fixtures_trace(r: &Ref, repo: &str, seed: u64) -> (Vec<Value>, Vec<String>) {
+    use std::fs;
+    let hx = |v: &Value| hex::decode(v.as_str().unwrap_or("")).unwrap();
+    let hxs = |v: &Value| -> Vec<Vec<u8>> { v.as_array().map(|a| a.iter().map(|x| hex::decode(x.as_str().unwrap()).unwrap()).collect()).unwrap_or_default() };
+    let load = |p: String| -> Value { serde_json::from_str(&fs::read_to_string(&p).unwrap_or_else(|e| panic!("{p}: {e}"))).unwrap() };
+    let mut d = Driver::new(r, seed, 100);
+    let mut skipped: Vec<String> = vec![];
+    for (suite, dir) in [(Suite::Sha, "bls12-381-sha-256"), (Suite::Shake, "bls12-381-shake-256")] {
+        d.ids.clear();
+        d.keys.clear();
+        d.objs.clear();
+        d.log("Reset", json!({"x": 0}), "Ok", 0, json!({}));
+        let base = format!("{repo}/fixture_data/{dir}");
+        let kp = load(format!("{base}/keypair.json"));
+        let (sk, pk) = (hx(&kp["keyPair"]["secretKey"]), hx(&kp["keyPair"]["publicKey"]));
+        d.keys.push((sk.clone(), pk.clone()));
+        d.log("KeyGen", json!({"key": 1}), "Ok", 0, json!({}));
+        let mut other_keys: Vec<Vec<u8>> = vec![];
+        // key id for a public key appearing in a fixture
+        let mut key_of = |d: &mut Driver, pkb: &[u8]| -> usize {
+            if pkb == &pk[..] {
+                return 1;
+            }
+            if let Some(i) = other_keys.iter().position(|k| k == pkb) {
+                return i + 2;
+            }
+            other_keys.push(pkb.to_vec());
+            d.keys.push((vec![0u8; 32], pkb.to_vec()));
+            let id = d.keys.len();
+            d.log("KeyGen", json!({"key": id}), "Ok", 0, json!({}));
+            id
+        };
+        let opt = |b: Vec<u8>| -> OB { Some(b) };
+        // ---- signatures: valid vectors are re-signed (octets must equal the fixture), then every vector is verified
+        let mut sig_handles: Vec<(Vec<u8>, usize)> = vec![]; // (signature octets, handle)
+        let mut files: Vec<_> = fs::read_dir(format!("{base}/signature")).unwrap().map(|e| e.unwrap().path()).collect();
+        files.sort();
+        let sigs: Vec<Value> = files.iter().map(|f| load(f.to_str().unwrap().to_string())).collect();
+        let mut sign_it = |d: &mut Driver, hdr: &[u8], msgs: &[Vec<u8>], expect: &[u8]| -> Option<usize> {
+            let h = opt(hdr.to_vec());
+            let m = Some(msgs.to_vec());
+            let got = lib::sign(suite, &sk, &pk, &h, &m, None);
+            let args = json!({"key": 1, "s": suite.name(), "hdr": d.abs_o(&h), "msgs": d.abs_v(&m)});
+            let out = d.objs.len() + 1;
+            let res = got.class();
+            let same = matches!(&got, Out::Ok(b) if &b[..] == expect);
+            if let Out::Ok(bytes) = got {
+                d.objs.push(DObj::Sig(DSig { tampered: false, bytes, s: suite, iface: Iface::Plain, key: 1, hdr: hdr.to_vec(), msgs: msgs.to_vec(), cm: 0, cms: vec![] }));
+            }
+            d.log("Sign", args, res, out, json!({"fixture": same}));
+            if res == "Ok" { Some(out) } else { None }
+        };
+        for j in sigs.iter().filter(|j| j["result"]["valid"].as_bool().unwrap()) {
+            let sb = hx(&j["signature"]);
+            if sig_handles.iter().any(|(b, _)| *b == sb) {
+                continue;
+            }
+            if let Some(h) = sign_it(&mut d, &hx(&j["header"]), &hxs(&j["messages"]), &sb) {
+                sig_handles.push((sb, h));
+            }
+        }
+        for (fi, j) in sigs.iter().enumerate() {
+            let sb = hx(&j["signature"]);
+            let Some((_, h)) = sig_handles.iter().find(|(b, _)| *b == sb) else {
+                skipped.push(format!("{dir}/signature[{fi}]: signature not produced by a valid vector"));
+                continue;
+            };
+            let key = key_of(&mut d, &hx(&j["signerKeyPair"]["publicKey"]));
+            let hdr = opt(hx(&j["header"]));
+            let msgs = Some(hxs(&j["messages"]));
+            let got = lib::verify(suite, &sb, &d.keys[key - 1].1.clone(), &hdr, &msgs, None);
+            let expect = if j["result"]["valid"].as_bool().unwrap() { "Ok" } else { "Err" };
+            let args = json!({"sig": h, "key": key, "s": suite.name(), "hdr": d.abs_o(&hdr), "msgs": d.abs_v(&msgs)});
+            d.log("Verify", args, got.class(), 0, json!({"fixture": got.class() == expect}));
+        }
+        // ---- proofs: the valid vectors' proofs are imported with the provenance the vector states
+        let mut files: Vec<_> = fs::read_dir(format!("{base}/proof")).unwrap().map(|e| e.unwrap().path()).collect();
+        files.sort();
+        let proofs: Vec<Value> = files.iter().map(|f| load(f.to_str().unwrap().to_string())).collect();
+        let mut proof_handles: Vec<(Vec<u8>, usize)> = vec![];
+        for j in proofs.iter().filter(|j| j["result"]["valid"].as_bool().unwrap()) {
+            let pb = hx(&j["proof"]);
+            if proof_handles.iter().any(|(b, _)| *b == pb) {
+                continue;
+            }
+            let sb = hx(&j["signature"]);
+            let (hdr, msgs) = (hx(&j["header"]), hxs(&j["messages"]));
+            let sh = match sig_handles.iter().find(|(b, _)| *b == sb) {
+                Some((_, h)) => *h,
+                None => match sign_it(&mut d, &hdr, &msgs, &sb) {
+                    Some(h) => {
+                        sig_handles.push((sb.clone(), h));
+                        h
+                    }
+                    None => continue,
+                },
+            };
+            let didx: Vec<usize> = j["disclosedIndexes"].as_array().unwrap().iter().map(|x| x.as_u64().unwrap() as usize).collect();
+            let (oh, oph, om, oi) = (opt(hdr.clone()), opt(hx(&j["presentationHeader"])), Some(msgs.clone()), Some(didx.clone()));
+            let args = json!({"sig": sh, "key": 1, "s": suite.name(), "hdr": d.abs_o(&oh), "ph": d.abs_o(&oph), "msgs": d.abs_v(&om), "didx": d.abs_i(&oi)});
+            let out = d.objs.len() + 1;
+            d.objs.push(DObj::Proof(DProof { tampered: false, bytes: pb.clone(), s: suite, iface: Iface::Plain, key: 1, hdr, ph: hx(&j["presentationHeader"]), msgs, cms: vec![], d: didx, cd: vec![] }));
+            d.log("ProofGen", args, "Ok", out, json!({"len": pb.len(), "imported_from_fixture": true}));
+            proof_handles.push((pb, out));
+        }
+        for (fi, j) in proofs.iter().enumerate() {
+            let pb = hx(&j["proof"]);
+            let h = match proof_handles.iter().find(|(b, _)| *b == pb) {
+                Some((_, h)) => *h,
+                None => {
+                    // a vector whose proof is a known proof with whole scalars removed is a tampered artefact
+                    let hit = proof_handles.iter().find(|(b, _)| b.len() == pb.len() + 32 && b[..pb.len() - 32] == pb[..pb.len() - 32]).map(|x| x.1);
+                    match hit {
+                        None => {
+                            skipped.push(format!("{dir}/proof[{fi}]: proof octets not derivable from a valid vector"));
+                            continue;
+                        }
+                        Some(_) => {
+                            skipped.push(format!("{dir}/proof[{fi}]: truncated proof with re-appended challenge (not a whole-scalar truncation)"));
+                            continue;
+                        }
+                    }
+                }
+            };
+            let key = key_of(&mut d, &hx(&j["signerPublicKey"]));
+            let msgs = hxs(&j["messages"]);
+            let didx: Vec<usize> = j["disclosedIndexes"].as_array().unwrap().iter().map(|x| x.as_u64().unwrap() as usize).collect();
+            if didx.iter().any(|&i| i >= msgs.len()) {
+                skipped.push(format!("{dir}/proof[{fi}]: disclosed index beyond the listed messages"));
+                continue;
+            }
+            let dm: Vec<Vec<u8>> = didx.iter().map(|&i| msgs[i].clone()).collect();
+            let (oh, oph, om, oi) = (opt(hx(&j["header"])), opt(hx(&j["presentationHeader"])), Some(dm), Some(didx));
+            let got = lib::proof_verify(suite, &pb, &d.keys[key - 1].1.clone(), &oh, &oph, &om, &oi, None);
+            let expect = if j["result"]["valid"].as_bool().unwrap() { "Ok" } else { "Err" };
+            let args = json!({"proof": h, "key": key, "s": suite.name(), "hdr": d.abs_o(&oh), "ph": d.abs_o(&oph), "dmsgs": d.abs_v(&om), "didx": d.abs_i(&oi)});
+            d.log("ProofVerify", args, got.class(), 0, json!({"fixture": got.class() == expect}));
+        }
+    }
+    (d.events, skipped)
+}
